@@ -247,6 +247,15 @@ func dirState(dirs ...string) map[string][32]byte {
 			if err != nil || info.IsDir() {
 				return nil
 			}
+			if info.Mode()&os.ModeSymlink != 0 {
+				// a directory reached through a link: its files are listed under the link's name
+				if st, err := os.Stat(p); err == nil && st.IsDir() {
+					for q, h := range dirState(p + string(filepath.Separator)) {
+						out[q] = h
+					}
+					return nil
+				}
+			}
 			b, _ := os.ReadFile(p)
 			out[p] = sha256.Sum256(b)
 			return nil
